@@ -315,6 +315,20 @@ func (c *c07) compose(cd *c07Coding, rs []rune, ref uint16, bucket string) {
 	} else {
 		r.Case(in, fmt.Sprintf("parts_obs_ok Nat.eqb (compose_len %s %s %d %s) %d %s", cd.wmodel, cd.emodel, ref, coqText(rs), cls, coqList(obs)))
 	}
+	if cls == 0 && len(parts) > 0 {
+		// the header accessors on the first and the last part
+		for _, i := range []int{0, len(parts) - 1} {
+			p := parts[i]
+			ch := "None"
+			if h := p.UDHeader.ConcatenatedHeader(); h != nil {
+				ch = fmt.Sprintf("(Some (%d, %d, %d))", h.Reference, h.TotalParts, h.Sequence)
+			}
+			r.Case(in+fmt.Sprintf(" header of part %d", i+1), fmt.Sprintf("udh_obs_ok %s %d %s", coqUDH(p.UDHeader), p.UDHeader.Len(), ch))
+			if len(parts) == 1 {
+				break
+			}
+		}
+	}
 	if len(r.Samples) < 8 && cls == 0 && len(parts) > 1 && len(parts) < 5 {
 		var ps []string
 		for _, p := range parts {
